@@ -178,4 +178,47 @@ theorem reads_union {g : Guards} {s : Schema} {c : Cls} (pre : List Cls) (ci : C
   simp only [Nat.zero_add] at this
   simp only [fromBytes, hty, leafFrom, this]
 
+/-! ### discharging a first-match premise: a digest is never taken for a command sequence
+
+A severable member is a union of (byte-string-wrapped) command sequence and digest, the command sequence first.  The bytes of a
+digest `[alg, bytes]` read as a command sequence would be one command with code `alg`; no condition and no directive has such
+a code, so the first alternative rejects them. -/
+theorem digest_rejected_as_sequence {g : Guards} {s : Schema} (cSeq cL cCmd cCond cDir : Cls) (esC esD : List Entry)
+    (a : Int) (b : Bytes)
+    (h1 : s.ty cSeq = some (.cbstr cL)) (h2 : s.ty cL = some (.list cCmd (some 2)))
+    (h3 : s.ty cCmd = some (.union [cCond, cDir]))
+    (h4 : s.ty cCond = some (.keyValueTuple esC)) (h5 : s.ty cDir = some (.keyValueTuple esD))
+    (hc : lookupId esC (Cbor.ofInt a) = none) (hd : lookupId esD (Cbor.ofInt a) = none)
+    (hw : (Cbor.arr [Cbor.ofInt a, .bstr b]).wf = true) (hn : norm (Cbor.ofInt a) = some (Cbor.ofInt a)) :
+    Rejects g s cSeq (enc (.arr [Cbor.ofInt a, .bstr b])) := by
+  refine ⟨7, fun fuel hf => ?_⟩
+  obtain ⟨k, rfl⟩ : ∃ k, fuel = k + 7 := ⟨fuel - 7, by omega⟩
+  have hnorm : norm (.arr [Cbor.ofInt a, .bstr b]) = some (.arr [Cbor.ofInt a, .bstr b]) := by
+    simp [norm, normList, hn]
+  have hd0 : deser (enc (.arr [Cbor.ofInt a, .bstr b])) = .ok (.arr [Cbor.ofInt a, .bstr b]) := deser_enc _ hw hnorm
+  have hcond : fromBytes g s (k + 1 + 1) cCond (enc (.arr [Cbor.ofInt a, .bstr b])) = .error .valueError := by
+    simp only [fromBytes, h4, leafFrom, hd0, hc, bind, Except.bind]
+  have hdir : fromBytes g s (k + 1) cDir (enc (.arr [Cbor.ofInt a, .bstr b])) = .error .valueError := by
+    simp only [fromBytes, h5, leafFrom, hd0, hd, bind, Except.bind]
+  have halts : fromAlts g s (k + 2 + 1) [cCond, cDir] 0 (enc (.arr [Cbor.ofInt a, .bstr b])) = .error .valueError := by
+    rw [fromAlts, hcond]
+    show fromAlts g s (k + 1 + 1) [cDir] (0 + 1) _ = _
+    rw [fromAlts, hdir]
+    show fromAlts g s (k + 1) [] (0 + 1 + 1) _ = _
+    rw [fromAlts]
+  have hcmd : fromBytes g s (k + 3 + 1) cCmd (enc (.arr [Cbor.ofInt a, .bstr b])) = .error .valueError := by
+    rw [fromBytes]
+    simp only [h3, leafFrom, halts]
+  have hens : ensure (Cbor.arr [Cbor.ofInt a, .bstr b]) = enc (.arr [Cbor.ofInt a, .bstr b]) := by simp [ensure]
+  have hlist : fromList g s (k + 4 + 1) cCmd [Cbor.arr [Cbor.ofInt a, .bstr b]] = .error .valueError := by
+    rw [fromList, hens, hcmd]; rfl
+  have hchunk : chunk 2 ([Cbor.ofInt a, Cbor.bstr b].length + 1) [Cbor.ofInt a, .bstr b] = [.arr [Cbor.ofInt a, .bstr b]] := by
+    simp [chunk]
+  have hL : fromBytes g s (k + 5 + 1) cL (enc (.arr [Cbor.ofInt a, .bstr b])) = .error .valueError := by
+    rw [fromBytes]
+    simp only [h2, leafFrom, hd0, hchunk, hlist, bind, Except.bind]
+  show fromBytes g s (k + 6 + 1) cSeq _ = _
+  rw [fromBytes]
+  simp only [h1, leafFrom, hL, bind, Except.bind]
+
 end SuitVerif.ReadsBack
